@@ -743,11 +743,291 @@ def policy_probe(prop, tier, seed, rep, vals_line):
     return cov
 
 
-EXTRA_STEPS = {"C16": words_probe, "C15": policy_probe}
+def layout_probe(prop, tier, seed, rep, vals_line=None):
+    """C03 / C13 / C20: grid of payload layouts (size 0..4 KiB, align 1..4096, ZST, over-aligned) through every
+    release path with the allocator oracle, and the predicted box layout (Model/Layout.lean) vs the measured one."""
+    cov = {}
+    problems = []
+    mism = []
+    nlines = 0
+    for release in ([False] if tier == "quick" else [False, True]):
+        ok, log = cargo_build(F_ALL, release)
+        if not ok:
+            raise RuntimeError("cargo build failed: " + log[-500:])
+        rc, out = sh([corr.harness_bin(F_ALL, release), "layout"], timeout=600)
+        lines = [l for l in out.splitlines() if l.startswith("layout ") and l != "layout done"]
+        if rc != 0 or "layout done" not in out:
+            rep.violation("impl-vs-property", ["# harness layout mode crashed: rc=%s" % rc, "# " + out[-400:].replace("\n", "\n# ")],
+                          "the layout life-cycle probe crashed (rc=%s) after: %s" % (rc, lines[-1] if lines else "-"), True, signature="layout-crash")
+            return {"layout_cases": len(lines)}
+        hdr_end = None
+        for l in lines:
+            m = re.match(r"layout (\S+) size=(\d+) align=(\d+) box=(\d+),(\d+) off=(\d+) (.*)$", l)
+            if m and int(m.group(3)) == 1:
+                hdr_end = int(m.group(6))
+                break
+        mh = re.search(r"hdr size=(\d+) align=(\d+)", out)
+        hdr_align = int(mh.group(2)) if mh else 8
+        q = []
+        for l in lines:
+            m = re.match(r"layout (\S+) size=(\d+) align=(\d+) box=(\d+),(\d+) off=(\d+) (.*)$", l)
+            if not m:
+                continue
+            nlines += 1
+            if m.group(7) != "ok":
+                problems.append(l)
+            q.append("layout %s %d %d %s %s" % (m.group(1), hdr_end or 0, hdr_align, m.group(2), m.group(3)))
+        p = subprocess.run([corr.DRIVER, "shapes"], input="\n".join(q) + "\n", capture_output=True, text=True, timeout=300)
+        exp = p.stdout.splitlines()
+        for a, b in zip(lines, exp):
+            if a.split(" ok")[0].split(" PROBLEMS")[0] != b.split(" ok")[0]:
+                mism.append((a, b))
+    cov.update({"layout_cases": nlines, "layout_problems": len(problems), "layout_model_mismatches": len(mism), "extra_evaluations": nlines})
+    if problems:
+        rep.violation("impl-vs-property", ["# " + x for x in problems[:20]],
+                      "payload layout life cycle (alloc/free layout equality, alignment, address stability, ptr_eq, release by every path) failed: %s" % problems[0],
+                      True, signature="layout-oracle")
+    elif mism:
+        detail = "layout correspondence (Model/Layout.lean vs measured box layout) broke: measured `%s`, model `%s`" % mism[0]
+        rep.violation("model-disagreement", ["# " + detail], detail, False, signature="corr:layout")
+    return cov
+
+
+EXTRA_STEPS = {"C16": words_probe, "C15": policy_probe, "C03": layout_probe, "C13": layout_probe}
+
+
+def simple_probe_check(prop, tier, seed, rep, runner):
+    a, consts_line = proof_part(prop, rep)
+    cov_extra = {}
+    try:
+        cov_extra = runner(prop, tier, seed, rep)
+    except Exception as ex:
+        rep.violation("probe-broken", ["# " + str(ex)], "probe for %s failed to run: %s" % (prop, ex), False, signature="probe")
+    finish_proof_violation(prop, rep)
+    cov = coverage_proof(a, cov_extra)
+    cov.setdefault("evaluations", cov_extra.get("extra_evaluations", 1) or 1)
+    cov.setdefault("distinct_nontrivial", cov_extra.get("distinct_nontrivial", 2))
+    cov.setdefault("programs", cov_extra.get("extra_evaluations", 1) or 1)
+    cov.setdefault("disagreements_checked", cov_extra.get("disagreements", 0))
+    return cov
+
+
+def run_C17(prop, tier, seed, rep):
+    cases = 0
+    mism = []
+    wrong = []
+    samples = []
+    builds = [(F_ALL, False)] if tier == "quick" else [(F_ALL, False), (F_ALL, True), (F_DEFAULT, False), (F_NOFIN, True)]
+    for feat, release in builds:
+        ok, log = cargo_build(feat, release)
+        if not ok:
+            raise RuntimeError("cargo build failed: " + log[-500:])
+        rc, out = sh([corr.harness_bin(feat, release), "containers"], timeout=600)
+        lines = [l for l in out.splitlines() if l.startswith("shape ")]
+        if rc != 0 or "containers done" not in out:
+            rep.violation("impl-vs-property", ["# containers probe crashed rc=%s" % rc, "# last: %s" % (lines[-1] if lines else "-")],
+                          "a built-in Trace/Finalize impl made the container probe crash (rc=%s) after `%s`" % (rc, lines[-1] if lines else "-"),
+                          True, signature="containers-crash")
+            continue
+        q = []
+        for l in lines:
+            m = re.match(r"shape (\S+) counts=(\S*) fin=(\S*)$", l)
+            n = len([x for x in m.group(2).split(",") if x]) if m else 0
+            q.append("shape %s %d" % (m.group(1) if m else "?", n))
+        p = subprocess.run([corr.DRIVER, "shapes"], input="\n".join(q) + "\n", capture_output=True, text=True, timeout=300)
+        exp = p.stdout.splitlines()
+        for a, b in zip(lines, exp):
+            cases += 1
+            if a != b:
+                mism.append((a, b, corr.feat_name(feat)))
+            # the statement itself on the crate's answer: counts are 0/1 per leaf, never more than once
+            m = re.match(r"shape (\S+) counts=(\S*) fin=(\S*)$", a)
+            if m and any(int(x) > 1 for x in m.group(2).split(",") + m.group(3).split(",") if x):
+                wrong.append(a)
+        if len(samples) < 3:
+            samples += lines[:2]
+    if wrong:
+        rep.violation("impl-vs-property", ["# " + x for x in wrong[:10]], "an owned Cc was reported more than once by one trace/finalize call: %s" % wrong[0], True,
+                      signature="containers-twice")
+    if mism:
+        a, b, fn = mism[0]
+        # a missing report (count 0 where the model says 1) leaks a cycle through that position; reported with the case as replay
+        missing = [x for x in mism if x[0] != x[1]]
+        detail = "built-in impl correspondence `Shapes.visit` broke on %d cases (features %s): crate `%s`, model `%s`" % (len(mism), fn, a, b)
+        rep.violation("impl-vs-property" if missing else "model-disagreement", ["# crate : " + a, "# model : " + b], detail, True, signature="containers")
+    return {"extra_evaluations": cases, "distinct_nontrivial": cases, "samples": samples, "disagreements": len(mism),
+            "rule": "every implemented container constructor, tuple arity 1..12, array length 0..32, Vec/slice length 0..6, each variant, borrowed/unborrowed RefCell, two-level nestings; per-leaf trace reports counted through the leaf's tracing counter after one collection, finalize forwards counted per element"}
+
+
+def run_C18(prop, tier, seed, rep):
+    feat = dict(F_ALL)
+    n = 40 if tier == "quick" else 200
+    rc, model_lines = sh([sys.executable, os.path.join(VERIF, "tools", "gen_derive.py"), str(seed), str(n)], timeout=120)
+    if rc != 0:
+        raise RuntimeError("gen_derive failed: " + model_lines[-300:])
+    cmd = ["cargo", "build", "--offline", "--target-dir", os.path.join("target", "derive"), "--features", "fin,weak,clean,auto,derive"]
+    rc, out = sh(cmd, cwd=HARNESS, timeout=3600)
+    if rc != 0:
+        # the generated definitions no longer compile with the macro: report with the error
+        rep.violation("impl-vs-property", ["# " + x for x in out.splitlines()[-25:]],
+                      "randomly generated #[derive(Trace, Finalize)] definitions (seed %d) no longer compile: %s" % (seed, "; ".join(re.findall(r"error[^\n]*", out)[:3])),
+                      True, signature="derive-compile")
+        return {"extra_evaluations": 1}
+    rc, out = sh([os.path.join(HARNESS, "target", "derive", "debug", "cc-harness"), "derive"], timeout=600)
+    lines = [l for l in out.splitlines() if l.startswith("derive ") and l != "derive done"]
+    if rc != 0 or "derive done" not in out:
+        rep.violation("impl-vs-property", ["# derive probe crashed rc=%s" % rc], "derived Trace impl made the probe crash after `%s`" % (lines[-1] if lines else "-"), True,
+                      signature="derive-crash")
+        return {"extra_evaluations": len(lines)}
+    p = subprocess.run([corr.DRIVER, "shapes"], input=model_lines, capture_output=True, text=True, timeout=300)
+    exp = p.stdout.splitlines()
+    mism = [(a, b) for a, b in zip(lines, exp) if a != b]
+    if len(lines) != len(exp):
+        mism.append(("%d lines" % len(lines), "%d lines" % len(exp)))
+    if mism:
+        a, b = mism[0]
+        rep.violation("impl-vs-property", ["# crate : " + a, "# model : " + b, "# definitions: harness/src/derive_gen.rs (seed %d)" % seed],
+                      "derive(Trace) visit lists differ from `Derive.visitedOf` on %d cases, e.g. crate `%s` model `%s`" % (len(mism), a, b), True, signature="derive")
+    # compile-fail probe: a user Drop next to derive(Trace) must be rejected unless unsafe_no_drop
+    cf = derive_drop_probe(rep)
+    cov = {"extra_evaluations": len(lines), "distinct_nontrivial": len(set(lines)), "samples": lines[:3], "disagreements": len(mism),
+           "rule": "random type definitions (tools/gen_derive.py, seed): unit/tuple/named structs, enums with 1..4 variants of mixed kinds, generics, nested container field types, every ignore pattern; compiled with the real macro; per-field trace reports counted"}
+    cov.update(cf)
+    return cov
+
+
+def derive_drop_probe(rep):
+    d = os.path.join(WORK, "derive_fail")
+    os.makedirs(os.path.join(d, "src"), exist_ok=True)
+    import shutil
+    shutil.copy(os.path.join(REPO, "Cargo.lock"), os.path.join(d, "Cargo.lock"))
+    open(os.path.join(d, "Cargo.toml"), "w").write(
+        '[package]\nname = "derive-fail"\nversion = "0.1.0"\nedition = "2021"\n\n[workspace]\n\n[dependencies]\n'
+        'rust-cc = { path = "/repo", default-features = false, features = ["std", "derive"] }\n\n[features]\nbad = []\n')
+    open(os.path.join(d, "src", "lib.rs"), "w").write(
+        "use rust_cc::*;\n#[cfg(feature = \"bad\")]\n#[derive(Trace, Finalize)]\npub struct Bad { a: Cc<u32> }\n"
+        "#[cfg(feature = \"bad\")]\nimpl Drop for Bad { fn drop(&mut self) {} }\n"
+        "#[derive(Trace, Finalize)]\n#[rust_cc(unsafe_no_drop)]\npub struct Good { a: Cc<u32> }\nimpl Drop for Good { fn drop(&mut self) {} }\n")
+    rc_good, out_good = sh(["cargo", "build", "--offline"], cwd=d, timeout=1200)
+    rc_bad, out_bad = sh(["cargo", "build", "--offline", "--features", "bad"], cwd=d, timeout=1200)
+    res = {"drop_conflict_rejected": rc_bad != 0 and "E0119" in out_bad, "unsafe_no_drop_accepted": rc_good == 0}
+    if rc_good != 0:
+        rep.violation("impl-vs-property", ["# " + x for x in out_good.splitlines()[-15:]], "a type with #[rust_cc(unsafe_no_drop)] and its own Drop no longer compiles", True,
+                      signature="derive-nodrop")
+    if not res["drop_conflict_rejected"]:
+        rep.violation("impl-vs-property", ["# derive(Trace) + user Drop compiled without error E0119", "# " + out_bad[-300:].replace("\n", " | ")],
+                      "a user-written Drop on a derive(Trace) type (without unsafe_no_drop) is no longer a compile error", True, signature="derive-drop")
+    return res
+
+
+def static_scan():
+    """C19: the crate keeps no state outside thread_local!, has no Sync/Send impls or atomics of its own."""
+    findings = []
+    for path in sorted(glob.glob(os.path.join(REPO, "src", "**", "*.rs"), recursive=True)):
+        rel = os.path.relpath(path, REPO)
+        if "/tests/" in path or rel.endswith("verif_hooks.rs"):
+            continue
+        src = extract_consts.strip_comments(open(path).read())
+        # remove thread_local! blocks (both the std macro and the crate's alias)
+        stripped = re.sub(r"(?:rust_cc_thread_local|thread_local)!\s*\{.*?\n\}", "", src, flags=re.S)
+        stripped = re.sub(r"macro_rules!\s*rust_cc_thread_local\s*\{.*?\n\}", "", stripped, flags=re.S)
+        stripped = re.sub(r"#\[cfg\(all\(test.*?\n\}", "", stripped, flags=re.S)
+        for m in re.finditer(r"^\s*(?:pub(?:\([a-z]+\))?\s+)?static\s+(?:mut\s+)?(\w+)", stripped, flags=re.M):
+            findings.append("%s: static %s outside thread_local!" % (rel, m.group(1)))
+        for m in re.finditer(r"unsafe\s+impl[^{;]*\b(Sync|Send)\b\s+for", stripped):
+            findings.append("%s: unsafe impl %s" % (rel, m.group(1)))
+        if rel != "src/trace.rs" and re.search(r"\bAtomic\w+::new|lazy_static|OnceLock|static_init", stripped):
+            findings.append("%s: process-wide shared state primitive" % rel)
+    cc = extract_consts.strip_comments(open(os.path.join(REPO, "src/cc.rs")).read())
+    for ty in ("struct Cc<", "struct CcBox<"):
+        i = cc.find(ty)
+        body = cc[i:cc.find("}", i)] if i >= 0 else ""
+        if "PhantomData<Rc<" not in body:
+            findings.append("src/cc.rs: %s no longer carries PhantomData<Rc<_>> (!Send + !Sync marker)" % ty.strip("<"))
+    return findings
+
+
+def run_C19(prop, tier, seed, rep):
+    findings = static_scan()
+    if findings:
+        rep.violation("model-disagreement", ["# " + f for f in findings],
+                      "static scan: the premise of the non-interference theorem (all collector state is thread-local, Cc is !Send/!Sync) no longer holds: %s" % findings[0],
+                      False, signature="tls-scan")
+    ok, log = cargo_build(F_ALL)
+    if not ok:
+        raise RuntimeError("cargo build failed: " + log[-500:])
+    vals, consts_line = regen_consts()
+    sz = sizes(F_ALL)
+    prof = gen.Profile("C19", F_ALL, fault_p=0.1)
+    prof.panic_p = 0.02
+    prof.cb_weights = {}
+    nprog = 1500 if tier == "quick" else 12000
+    g = gen.Gen(random.Random(seed * 31 + 19), prof, sz, consts_line)
+    progs = [("C19-%d-%d" % (seed, i), None) for i in range(nprog)]
+    progs = [(n, g.program(n)) for n, _ in progs]
+    text = "\n".join("\n".join(l) for _, l in progs) + "\n"
+    mo = corr.run_model(text)
+    usable = [(n, l) for n, l in progs if corr.model_ok(mo.get(n, []))]
+    utext = "\n".join("\n".join(l) for _, l in usable) + "\n"
+    bad = 0
+    first = None
+    total = 0
+    for nthreads in ([2, 16] if tier == "quick" else [2, 3, 8, 16]):
+        p = subprocess.run([corr.harness_bin(F_ALL), "run"], input=utext, capture_output=True, text=True, timeout=1800,
+                           env=dict(os.environ, VERIF_THREADS=str(nthreads)))
+        outs, _ = corr.split_outputs(p.stdout)
+        if p.returncode != 0:
+            rep.violation("impl-vs-property", ["# harness crashed with VERIF_THREADS=%d rc=%s" % (nthreads, p.returncode)],
+                          "running independent programs on %d concurrent threads crashed the process (rc=%s)" % (nthreads, p.returncode), True, signature="threads-crash")
+            continue
+        for n, l in usable:
+            total += 1
+            if corr.compare(mo[n], outs.get(n, []), corr.proj_full) is not None or corr.oracle_hits(outs.get(n, [])):
+                bad += 1
+                if first is None:
+                    first = (n, l, nthreads)
+    if first:
+        n, l, nt = first
+        rep.violation("impl-vs-property", l, "program `%s` behaves differently when other threads run their own programs concurrently (%d threads) than alone: "
+                      "%d of %d runs differ from the sequential model run" % (n, nt, bad, total), True, signature="threads-interference")
+    rc, out = sh([corr.harness_bin(F_ALL), "teardown"], timeout=600)
+    tl = [l for l in out.splitlines() if l.startswith("teardown ") and l != "teardown done"]
+    badt = [l for l in tl if "PANICKED" in l or not l.endswith("double_drops=0")] if "teardown done" in out else ["teardown probe crashed rc=%s" % rc]
+    if rc != 0 or badt:
+        rep.violation("impl-vs-property", ["# " + x for x in (badt or tl[-3:])], "thread teardown scenario failed: %s" % (badt[0] if badt else "crash rc=%s" % rc), True,
+                      signature="teardown")
+    return {"extra_evaluations": total + len(tl), "distinct_nontrivial": len(usable), "samples": [usable[0][1]] if usable else [], "disagreements": bad,
+            "teardown_scenarios": len(tl), "static_scan_findings": findings,
+            "rule": "static scan of /repo/src for non-thread-local state; %d generated programs each run on 2..16 concurrently running threads and compared with its sequential model run; 8 thread-exit scenarios" % len(usable)}
+
+
+def run_C20(prop, tier, seed, rep):
+    cov = layout_probe(prop, tier, seed, rep)
+    ok, log = cargo_build(F_ALL)
+    rc, out = sh([corr.harness_bin(F_ALL), "forward"], timeout=300)
+    m = re.search(r"forward pairs=(\d+) mismatches=(\d+)", out)
+    if rc != 0 or not m:
+        rep.violation("impl-vs-property", ["# forward probe crashed rc=%s" % rc], "forwarding-impl probe crashed", True, signature="forward-crash")
+    elif int(m.group(2)) != 0:
+        mm = [l for l in out.splitlines() if l.startswith("forward-mismatch")]
+        rep.violation("impl-vs-property", ["# " + x for x in mm[:20]], "Eq/Ord/PartialOrd/Hash/Debug/Display/Default on Cc<T> differ from T: %s" % mm[0], True, signature="forward")
+    cov["forward_pairs"] = int(m.group(1)) if m else 0
+    cov["extra_evaluations"] = cov.get("extra_evaluations", 0) + cov["forward_pairs"]
+    cov["distinct_nontrivial"] = cov.get("layout_cases", 2)
+    cov["samples"] = ["layout grid: sizes {0,1,3,8,24,100,4096}+8 x aligns {1,2,8,16,64,4096} + ZST x {1,8,64,4096}", "forward: i32 / f64 (NaN, +-0.0, inf) / String pairs"]
+    cov["rule"] = "payload layout grid through new/clone/deref/as_ref/borrow/downgrade/upgrade/collect/try_unwrap/new_cyclic with allocator oracle; predicted offsets/sizes from Model/Layout.lean; 12 forwarded methods on all pairs of value sets"
+    return cov
+
+
+CUSTOM = {
+    "C17": lambda p, t, s, r: simple_probe_check(p, t, s, r, run_C17),
+    "C18": lambda p, t, s, r: simple_probe_check(p, t, s, r, run_C18),
+    "C19": lambda p, t, s, r: simple_probe_check(p, t, s, r, run_C19),
+    "C20": lambda p, t, s, r: simple_probe_check(p, t, s, r, run_C20),
+}
 
 # ------------------------------------------------------------------------------------ entry
 
-CUSTOM = {}
 
 
 def check(prop, tier, seed, replay=None):
